@@ -21,6 +21,11 @@ fn fmt_rel<T: std::fmt::Debug + Ord + Clone>(name: &str, rows: Vec<T>) -> String
 
 // transitive closure
 progs!(tc { relation edge(i32, i32); relation path(i32, i32); path(x, y) <-- edge(x, y); path(x, z) <-- edge(x, y), path(y, z); });
+// two strata: the second one creates its indices after the first one has run
+progs!(two { relation edge(i32, i32); relation path(i32, i32); relation far(i32); relation cnt(usize);
+    path(x, y) <-- edge(x, y); path(x, z) <-- edge(x, y), path(y, z);
+    far(y) <-- path(0, y), !edge(0, y);
+    cnt(n) <-- agg n = ::ascent::aggregators::count() in far(_); });
 // un-indexed scans: both clauses of the cross product are read without a key
 progs!(scan { relation a(i32); relation b(i32); relation c(i32, i32); relation d(i32);
     c(x, y) <-- a(x), b(y);
@@ -75,6 +80,27 @@ fn main() {
             format!("{}|{}|{}", fmt_rel("path", p1.path.iter().map(|t| *t).collect::<Vec<_>>()), fmt_rel("path", p2.path.iter().map(|t| *t).collect::<Vec<_>>()), fmt_rel("path", p3.path.clone()))
         };
         explore_harness(&mut rep, prop, &cfgname, &[3], k, cap, &body, &expected);
+    } else if cfgname.starts_with("instances-pools") {
+        // two parallel program values at the same time in pools of different sizes: a three-strata program running in a
+        // small pool while another value is constructed and run in a larger pool (and the other way round)
+        let (small, large) = if cfgname.ends_with("-rev") { (3, 1) } else { (1, 3) };
+        let e1 = [(0, 1), (0, 2), (1, 3), (2, 3), (3, 4)];
+        let e2 = [(5, 6), (6, 5)];
+        let expected = {
+            let mut p = two::ser::P::default(); for t in e1 { p.edge.push(t); } p.run();
+            let mut q = tc::ser::P::default(); for t in e2 { q.edge.push(t); } q.run();
+            format!("{}{}{}|{}", fmt_rel("path", p.path.clone()), fmt_rel("far", p.far.clone()), fmt_rel("cnt", p.cnt.clone()), fmt_rel("path", q.path.clone()))
+        };
+        let body = move || -> String {
+            let mut p1 = two::par::P::default();
+            for t in e1 { p1.edge.push(t); }
+            let (_, r2) = ascent::rayon::join(
+                || in_pool(PoolSel::Size(small), || p1.run()),
+                || in_pool(PoolSel::Size(large), || { let mut p2 = tc::par::P::default(); for t in e2 { p2.edge.push(t); } p2.run(); fmt_rel("path", p2.path.iter().map(|t| *t).collect::<Vec<_>>()) }));
+            format!("{}{}{}|{}", fmt_rel("path", p1.path.iter().map(|t| *t).collect::<Vec<_>>()), fmt_rel("far", p1.far.iter().map(|t| *t).collect::<Vec<_>>()), fmt_rel("cnt", p1.cnt.iter().map(|t| *t).collect::<Vec<_>>()), r2)
+        };
+        // a new process per execution: the shard count is process-wide state that an earlier execution would fix
+        sharness::explore_harness_opt(&mut rep, prop, &cfgname, &[2], k, cap, &body, &expected, true);
     } else {
         let parts: Vec<&str> = cfgname.split(':').collect();
         let (prog, construct) = (parts[0], parse_sel(parts[1]));
@@ -105,6 +131,6 @@ fn main() {
         }
     }
     rep.extra("shards_count", ascent::internal::shards_count());
-    rep.rule = "one pool configuration per process: pool current at construction x pool current at each run (global of 2, sizes 1-3, nested), facts added between runs; every execution with at most k deviations; result must equal the serial program's on the same inputs; plus three program values (two parallel of one type, one serial) running at the same time".into();
+    rep.rule = "one pool configuration per process: pool current at construction x pool current at each run (global of 2, sizes 1-3, nested), facts added between runs; every execution with at most k deviations; result must equal the serial program's on the same inputs; plus three program values (two parallel of one type, one serial) running at the same time in one pool, and two parallel values running at the same time in pools of different sizes".into();
     rep.finish(start)
 }
